@@ -28,17 +28,66 @@ def hist_replay(name):
     return replay
 
 
-SPECS = {
-    "C16": {"run": hist_bin("c16"), "replay": hist_replay("c16"), "technique": "exhaustive enumeration of all pairs/triples over complete small carriers on the real Lattice impls",
-            "assumptions": COMMON_ASSUME + ["wide integer types are covered at boundary values only; u8/i8 completely"]},
-    "C17": {"run": hist_bin("c17"), "replay": hist_replay("c17"), "technique": "exhaustive enumeration of all input sequences up to a length bound on the real aggregators",
-            "assumptions": COMMON_ASSUME + ["values from {-1,0,1,2}; percentile p from a 0.5 grid plus rank boundaries"]},
-    "C18": {"run": hist_bin("c18"), "replay": hist_replay("c18"), "technique": "exhaustive DFS over all operation histories up to a depth bound on the real structures, reference closure compared after every operation",
-            "assumptions": COMMON_ASSUME + ["4 (and 5) elements; histories up to depth 6/7 (TrRelUnionFind), 5/6 (UnionFind)"]},
-    "C19": {"run": lambda prop, tier, seed: c19_run(prop, tier, seed), "replay": hist_replay("c19"),
-            "technique": "exhaustive DFS over all operation histories on every real index type vs a reference multimap (serial part); exhaustive interleavings under the vsched scheduler (concurrent part)",
-            "assumptions": COMMON_ASSUME + ["2 keys (same shard / different shards) x 2 values; depth 5 (6 thorough)"]},
-}
+GEN = os.path.join(ROOT, "build", "gen")
+TARGET_GEN = os.path.join(ROOT, "build", "target-gen")
+NSHARDS = 16
+
+
+def build_family(family, tier):
+    """generate + build the batch crates of one program family; returns the list of shard binaries"""
+    cargo_build(ENGINES, ["--release", "-p", "prog", "--bin", "pgen"])
+    import subprocess
+    p = subprocess.run([os.path.join(REL, "pgen"), family, tier, GEN, str(NSHARDS)], capture_output=True, text=True)
+    if p.returncode != 0:
+        raise MachineryError("pgen failed: " + p.stderr[-2000:])
+    d = os.path.join(GEN, "%s_%s" % (family, tier))
+    cargo_build(d, ["--release"], env={"CARGO_TARGET_DIR": TARGET_GEN})
+    return [os.path.join(TARGET_GEN, "release", "g_%s_%s_s%02d" % (family, tier, i)) for i in range(NSHARDS)]
+
+
+def run_family(prop, family, tier, seed, mode, extra_args=None, timeout=3600):
+    from concurrent.futures import ThreadPoolExecutor
+    bins = build_family(family, tier)
+    def one(ib):
+        i, b = ib
+        return run_part("%s.%s.%s.s%02d" % (prop, family, mode, i), [b, "--mode", mode] + (extra_args or []), tier, seed, timeout=timeout)
+    with ThreadPoolExecutor(max_workers=NSHARDS) as ex:
+        reps = list(ex.map(one, enumerate(bins)))
+    # collapse the shards of one family into one part
+    from vlib.driver import merge
+    m = merge(reps)
+    return {"part": "%s/%s" % (family, mode), "states": m["states"], "transitions": m["transitions"], "executions": m["executions"],
+            "evaluations": m["evaluations"], "nontrivial": m["nontrivial"], "exhaustive": m["exhaustive"], "caps_hit": m["caps_hit"],
+            "samples": m["samples"][:3], "extras": sum_extras(reps), "violations": m["violations"], "violation_total": m["violation_total"],
+            "sig_counts": m["sig_counts"], "rule": reps[0].get("rule", ""), "wall_s": max(r.get("wall_s", 0) for r in reps)}
+
+
+def sum_extras(reps):
+    out = {}
+    for r in reps:
+        for k, v in r.get("extras", {}).items():
+            if isinstance(v, (int, float)) and not isinstance(v, bool):
+                out[k] = out.get(k, 0) + v
+            else:
+                out[k] = v
+    return out
+
+
+def prog_check(families, mode):
+    def run(prop, tier, seed):
+        return [run_family(prop, f, tier, seed, mode) for f in families]
+    return run
+
+
+def prog_replay(prop, path, tier, seed):
+    r = json.load(open(path))["replay"]
+    family, rtier, unit = r["family"], r["tier"], r["unit"]
+    bins = build_family(family, rtier)
+    rep = run_part(prop + ".replay", [bins[unit % NSHARDS], "--mode", r["mode"], "--replay", path], rtier, seed)
+    for v in rep.get("violations", []):
+        print("REPLAY-VIOLATION property=%s %s" % (prop, v["desc"][:800]))
+    print("replay: %d violation(s) reproduced" % rep.get("violation_total", 0))
+    return 1 if rep.get("violation_total", 0) else 0
 
 
 def c19_run(prop, tier, seed):
@@ -48,3 +97,23 @@ def c19_run(prop, tier, seed):
         reps.append(run_part("%s.serial-%s" % (prop, cfg), [os.path.join(REL, "c19")], tier, seed, env={"C19_KEYS": cfg}))
         reps[-1]["part"] = "serial-keys-" + cfg
     return reps
+
+
+P_ASSUME = COMMON_ASSUME + ["the reference evaluator and the AST printer are trusted (guarded by the wrong-reference self-test and the mutation demos)"]
+
+SPECS = {}
+SPECS["C01"] = {"run": prog_check(["shape", "scc"], "C01"), "replay": prog_replay,
+                "technique": "bounded-exhaustive enumeration of programs (compiled by the real macros) x all input databases, compared with a naive reference evaluator",
+                "assumptions": P_ASSUME + ["programs from the families F-shape and F-scc, domain {0,1}"]}
+SPECS["C16"] = {"run": hist_bin("c16"), "replay": hist_replay("c16"),
+                "technique": "exhaustive enumeration of all pairs/triples over complete small carriers on the real Lattice impls",
+                "assumptions": COMMON_ASSUME + ["wide integer types are covered at boundary values only; u8/i8 completely"]}
+SPECS["C17"] = {"run": hist_bin("c17"), "replay": hist_replay("c17"),
+                "technique": "exhaustive enumeration of all input sequences up to a length bound on the real aggregators",
+                "assumptions": COMMON_ASSUME + ["values from {-1,0,1,2}; percentile p from a 0.5 grid plus rank boundaries"]}
+SPECS["C18"] = {"run": hist_bin("c18"), "replay": hist_replay("c18"),
+                "technique": "exhaustive DFS over all operation histories up to a depth bound on the real structures, reference closure compared after every operation",
+                "assumptions": COMMON_ASSUME + ["4 (and 5) elements; histories up to depth 6/7 (TrRelUnionFind), 5/6 (UnionFind)"]}
+SPECS["C19"] = {"run": c19_run, "replay": hist_replay("c19"),
+                "technique": "exhaustive DFS over all operation histories on every real index type vs a reference multimap (serial part)",
+                "assumptions": COMMON_ASSUME + ["2 keys (same shard / different shards) x 2 values; depth 5 (6 thorough)"]}
